@@ -262,6 +262,10 @@ def check_slot(name, g, ref, res, ctx, loose=False, unconstrained=(), observe=Tr
             f4 = [tuple(x) for x in g.edges(target=tg)] if tg is not None else None
             f5 = [tuple(x) for x in g.attributes(target=tg)] if tg is not None else None
             f6 = [tuple(x) for x in g.attributes(role=r)]
+            # every argument given at once: still a sub-list, i.e. every occurrence of a repeated triple
+            f7 = [tuple(x) for x in g.edges(source=s, role=r, target=tg)] if tg is not None else None
+            f8 = [tuple(x) for x in g.attributes(source=s, role=r, target=tg)] if tg is not None else None
+            f9 = [tuple(x) for x in g.edges(source=s, target=tg)] if tg is not None else None
         except Exception as e:
             res.violate('queries', 'filter-raised:' + type(e).__name__, slot=name, error=digest.canon_exc(e), **ctx)
             return False
@@ -269,7 +273,10 @@ def check_slot(name, g, ref, res, ctx, loose=False, unconstrained=(), observe=Tr
                 or f3 != [x for x in attrs if x[0] == s and x[1] == r] \
                 or (f4 is not None and f4 != [x for x in edges if x[2] == tg]) \
                 or (f5 is not None and f5 != [x for x in attrs if x[2] == tg]) \
-                or f6 != [x for x in attrs if x[1] == r]:
+                or f6 != [x for x in attrs if x[1] == r] \
+                or (f7 is not None and f7 != [x for x in edges if x == t]) \
+                or (f8 is not None and f8 != [x for x in attrs if x == t]) \
+                or (f9 is not None and f9 != [x for x in edges if x[0] == s and x[2] == tg]):
             res.violate('queries', 'filter-wrong', slot=name, triple=list(map(str, t)),
                         triples=[list(map(str, x)) for x in triples], top=g._top, **ctx)
             return False
